@@ -8,6 +8,8 @@ back in its constructor state (nothing - in particular not `last_left_key` - is 
 import os, re, sys
 sys.path.insert(0, os.path.dirname(os.path.dirname(__file__)))
 import std_specs as S
+from engine.rsx import sha as rsx_sha
+ADVANCE_SHA = '4eaca8289c75d324'
 
 PROPERTIES = ["C08", "C05"]
 MIN_VERIFIED = 4
@@ -136,5 +138,11 @@ def build(x):
     nx.add_spec(NEXT_SPEC)
     nx.text = '#[verifier::exec_allows_no_decreases_clause]\n' + nx.text
     nx.add_loop_spec(1, NEXT_LOOP)
+    # the ASSUMED contract of `advance` was written for the body with this hash: if the body changes, a failure of next()
+    # may be due to the stale assumption rather than to the code -> undecided, never an alarm
+    adv = x.method(F, 'JoinLocalSortMerge', 'advance')
+    if rsx_sha(adv.orig) != ADVANCE_SHA:
+        nx._lost('assumed contract of advance(): its body changed (sha ' + rsx_sha(adv.orig) + ' != ' + ADVANCE_SHA + ')')
+    x.fragments.remove(adv) if adv in getattr(x, 'fragments', []) else None
     pieces += [HDR, dr, nx, "}"]
     return pieces
